@@ -5,6 +5,7 @@ from __future__ import absolute_import, division
 
 import re
 from collections import OrderedDict
+from decimal import Decimal
 
 from .CommonMixin import CommonMixin
 
@@ -133,6 +134,20 @@ PAT_PARAMETER_OR_STR = (
 #   2 - Parameter value if any
 #   3 - Non letter char
 REGEX_PARAMETER_OR_STR = re.compile(PAT_PARAMETER_OR_STR)
+
+
+def formatNumber(value):
+    """
+    Convert a value to the string to use for it in a Gcode command.
+
+    Floats that Python would render in exponent notation (e.g. 1e-05) are rendered in plain
+    decimal notation instead, since firmware doesn't understand exponents (and may interpret
+    the 'E' as the start of an extruder parameter).
+    """
+    text = str(value)
+    if (isinstance(value, float) and ("e" in text)):
+        text = format(Decimal(text), "f")
+    return text
 
 
 class GcodeParser(CommonMixin):  # pylint: disable=too-many-instance-attributes
@@ -513,7 +528,7 @@ class GcodeParser(CommonMixin):  # pylint: disable=too-many-instance-attributes
         if (paramsDict is not None):
             for key, val in paramsDict.items():
                 if (val is not None):
-                    key += str(val)
+                    key += formatNumber(val)
 
                 if (key):
                     vals.append(key)
